@@ -167,7 +167,15 @@ func runC09(c string) string {
 			}
 		}
 		out = append(out, fmt.Sprintf("spilldirs=%d", tmpEntries("spiller-")-before))
-	case "CB":
+	case "CB", "CBS":
+		if h[0] == "CBS" {
+			// "CBS <spill batch size> <chunk> <target>": spilled frames are written in batches of that many rows (the merge
+			// buffers that read them back hold 128)
+			sb := sliceio.SpillBatchSize
+			sliceio.SpillBatchSize = atoi(h[1])
+			defer func() { sliceio.SpillBatchSize = sb }()
+			h = append([]string{"CB"}, h[2:]...)
+		}
 		save := defaultsize.Chunk
 		defaultsize.Chunk = atoi(h[1])
 		defer func() { defaultsize.Chunk = save }()
@@ -237,33 +245,70 @@ func runC10(c string) string {
 	ctx := context.Background()
 	before := tmpEntries("spiller-")
 	var res string
+	// "K=<kind>": the same over another key type — the inputs' keys are converted to their typed images (kinds.go,
+	// monotone), the readers run on (kind, int64) frames, and the output keys are converted back
+	typ := slicetype.Type(typ2)
+	untyped := func(r sliceio.Reader) sliceio.Reader { return r }
+	if len(h) > 1 && strings.HasPrefix(h[1], "K=") {
+		kind := h[1][2:]
+		h = append([]string{h[0]}, h[2:]...)
+		typT := slicetype.New(kindType(kind), reflect.TypeOf(int64(0)))
+		typ = typT
+		for i := range rs {
+			rs[i] = &c10conv{r: rs[i], inner: typ2, toTyped: true, kind: kind}
+		}
+		untyped = func(r sliceio.Reader) sliceio.Reader { return &c10conv{r: r, inner: typT, toTyped: false, kind: kind} }
+	}
 	switch h[0] {
 	case "sort":
 		sc, sb := defaultsize.SortCanary, sliceio.SpillBatchSize
 		defaultsize.SortCanary, sliceio.SpillBatchSize = atoi(h[1]), atoi(h[3])
 		defer func() { defaultsize.SortCanary, sliceio.SpillBatchSize = sc, sb }()
-		r, err := sortio.SortReader(ctx, atoi(h[2]), typ2, rs[0])
+		r, err := sortio.SortReader(ctx, atoi(h[2]), typ, rs[0])
 		if err != nil {
 			res = "end calls=0:0:" + errClass(err) + ":0 | rows= | altered=0"
 		} else {
-			res = drain(r, typ2, dest, 2)
+			res = drain(untyped(r), typ2, dest, 2)
 		}
 	case "merge":
 		sb := sliceio.SpillBatchSize
 		sliceio.SpillBatchSize = atoi(h[1])
 		defer func() { sliceio.SpillBatchSize = sb }()
-		r, err := sortio.NewMergeReader(ctx, typ2, rs)
+		r, err := sortio.NewMergeReader(ctx, typ, rs)
 		if err != nil {
 			res = "end calls=0:0:" + errClass(err) + ":0 | rows= | altered=0"
 		} else {
-			res = drain(r, typ2, dest, 2)
+			res = drain(untyped(r), typ2, dest, 2)
 		}
 	case "reduce":
-		res = drain(sortio.Reduce(typ2, "verif", rs, addComb), typ2, dest, 2)
+		res = drain(untyped(sortio.Reduce(typ, "verif", rs, addComb)), typ2, dest, 2)
 	default:
 		panic("bad kind")
 	}
 	return res + fmt.Sprintf(" | spilldirs=%d | injected=%d", tmpEntries("spiller-")-before, injectedFailures)
+}
+
+// c10conv reads rows from r through a frame of type inner and hands them on with the key column converted to (toTyped) or
+// from the typed image of the small natural it stands for.  It writes only the rows it returns.
+type c10conv struct {
+	r       sliceio.Reader
+	inner   slicetype.Type
+	toTyped bool
+	kind    string
+}
+
+func (c *c10conv) Read(ctx context.Context, out frame.Frame) (int, error) {
+	tmp := frame.Make(c.inner, out.Len(), out.Len())
+	n, err := c.r.Read(ctx, tmp)
+	for i := 0; i < n && i < out.Len(); i++ {
+		if c.toTyped {
+			out.Index(0, i).Set(fromInt(c.kind, int(tmp.Index(0, i).Int())))
+		} else {
+			out.Index(0, i).SetInt(int64(toInt(c.kind, tmp.Index(0, i))))
+		}
+		out.Index(1, i).Set(tmp.Index(1, i))
+	}
+	return n, err
 }
 
 func init() {
